@@ -8,9 +8,14 @@
 (* one observation per variant of the call.  TLC evaluates the reference   *)
 (* semantics on the recorded input and judges, per variant,                *)
 (*     eq    ObsEq(py, rs)                    -- the property              *)
-(*     pyOk  the pure-Python answer is what the reference permits          *)
-(*     rsOk  the Rust answer is what the reference permits                 *)
-(* and prints  <<"VERDICT", tid, fam, refSummary, eq, pyOk, rsOk>>.        *)
+(*     pyOk  the pure-Python answer is inside what the reference permits   *)
+(*     rsOk  the Rust answer is inside what the reference permits          *)
+(*     pyRef the pure-Python answer IS the reference answer (blame)        *)
+(*     rsRef the Rust answer IS the reference answer                       *)
+(* and prints <<"VERDICT", tid, fam, refSummary, eq, pyOk, rsOk, pyRef,    *)
+(* rsRef>>.  (Ok and Ref differ for the decoders -- a decoder may fail or  *)
+(* return the output C03's postcondition admits -- and for the shared '+'  *)
+(* leniency of parse_tree.)                                                *)
 (*                                                                         *)
 (*  fam "pt"      text, shaLen; variants strict off/on;                    *)
 (*                obs {"k":"f"} | {"k":"v","e":[[digits],[name],[id]]...}  *)
@@ -34,6 +39,7 @@ IsF(o) == o.k = "f"
 
 \* ---- parse_tree
 PtObs(o) == IF IsF(o) THEN Fail ELSE <<"v", o.e>>
+PtRef(r) == IF r[1] = "ok" THEN <<"v", r[4]>> ELSE Fail
 VerdictPt(t) ==
     LET r  == <<ParseTree(t.text, t.shaLen, FALSE), ParseTree(t.text, t.shaLen, TRUE)>>
         py == [j \in 1..2 |-> PtObs(t.py[j])]
@@ -41,24 +47,30 @@ VerdictPt(t) ==
     IN <<"VERDICT", t.tid, "pt", [j \in 1..2 |-> <<r[j][1], r[j][2], r[j][3], r[j][5]>>],
          [j \in 1..2 |-> ObsEq(py[j], rs[j])],
          [j \in 1..2 |-> ParseAllowed(r[j], py[j])],
-         [j \in 1..2 |-> ParseAllowed(r[j], rs[j])]>>
+         [j \in 1..2 |-> ParseAllowed(r[j], rs[j])],
+         [j \in 1..2 |-> py[j] = PtRef(r[j])],
+         [j \in 1..2 |-> rs[j] = PtRef(r[j])]>>
 
 \* ---- sorted_tree_items
 ItObs(o) == IF IsF(o) THEN Fail ELSE <<"v", o.e>>
 VerdictItems(t) ==
     LET ref == <<"v", SortItems(t.items, t.no = 1)>> IN
     <<"VERDICT", t.tid, "items", <<>>,
-      <<ObsEq(ItObs(t.py[1]), ItObs(t.rs[1]))>>, <<ItObs(t.py[1]) = ref>>, <<ItObs(t.rs[1]) = ref>>>>
+      <<ObsEq(ItObs(t.py[1]), ItObs(t.rs[1]))>>, <<ItObs(t.py[1]) = ref>>, <<ItObs(t.rs[1]) = ref>>,
+      <<ItObs(t.py[1]) = ref>>, <<ItObs(t.rs[1]) = ref>>>>
 
 \* ---- apply_delta
 DObs(o) == IF IsF(o) THEN Fail ELSE <<"v", o.out>>
+DRef(j) == IF j[1] = "ok" THEN <<"v", j[3]>> ELSE Fail
 VerdictDelta(t) ==
     LET j == DeltaJudge(t.base, t.delta)
         n == Len(t.py)
     IN <<"VERDICT", t.tid, "delta", <<j[1], j[2], j[4]>>,
          [k \in 1..n |-> ObsEq(DObs(t.py[k]), DObs(t.rs[k]))],
          [k \in 1..n |-> DeltaAllowed(j, DObs(t.py[k]))],
-         [k \in 1..n |-> DeltaAllowed(j, DObs(t.rs[k]))]>>
+         [k \in 1..n |-> DeltaAllowed(j, DObs(t.rs[k]))],
+         [k \in 1..n |-> DObs(t.py[k]) = DRef(j)],
+         [k \in 1..n |-> DObs(t.rs[k]) = DRef(j)]>>
 
 \* ---- create_delta
 COk(t, o) == ~IsF(o) /\ D!Decode(t.base, o.d) = [st |-> "ok", out |-> t.target]
@@ -66,6 +78,8 @@ VerdictCDelta(t) ==
     LET n == Len(t.py) IN
     <<"VERDICT", t.tid, "cdelta", <<>>,
       [k \in 1..n |-> (IsF(t.py[k]) /\ IsF(t.rs[k])) \/ (COk(t, t.py[k]) /\ COk(t, t.rs[k]))],
+      [k \in 1..n |-> COk(t, t.py[k])],
+      [k \in 1..n |-> COk(t, t.rs[k])],
       [k \in 1..n |-> COk(t, t.py[k])],
       [k \in 1..n |-> COk(t, t.rs[k])]>>
 
@@ -76,6 +90,7 @@ VerdictBisect(t) ==
     LET r == Find(t.table, t.lo, t.hi, t.key) IN
     <<"VERDICT", t.tid, "bisect", <<r[1]>>,
       <<ObsEq(BObs(t.py[1]), BObs(t.rs[1]))>>, <<BObs(t.py[1]) = BRef(r)>>, <<BObs(t.rs[1]) = BRef(r)>>,
+      <<BObs(t.py[1]) = BRef(r)>>, <<BObs(t.rs[1]) = BRef(r)>>,
       FindLemma(t.table, t.lo, t.hi, t.key)>>
 
 \* ---- _merge_entries
@@ -83,7 +98,8 @@ MObs(o) == IF IsF(o) THEN Fail ELSE <<"v", o.e>>
 VerdictMerge(t) ==
     LET ref == <<"v", MergeEntries(t.t1, t.t2)>> IN
     <<"VERDICT", t.tid, "merge", <<>>,
-      <<ObsEq(MObs(t.py[1]), MObs(t.rs[1]))>>, <<MObs(t.py[1]) = ref>>, <<MObs(t.rs[1]) = ref>>>>
+      <<ObsEq(MObs(t.py[1]), MObs(t.rs[1]))>>, <<MObs(t.py[1]) = ref>>, <<MObs(t.rs[1]) = ref>>,
+      <<MObs(t.py[1]) = ref>>, <<MObs(t.rs[1]) = ref>>>>
 
 \* ---- _count_blocks
 Totals(c) == SortSeq([k \in DOMAIN c |-> c[k][3]], <)
@@ -93,6 +109,8 @@ VerdictBlocks(t) ==
         n == Len(t.py)
     IN <<"VERDICT", t.tid, "blocks", c,
          [k \in 1..n |-> ObsEq(KObs(t.py[k]), KObs(t.rs[k]))],
+         [k \in 1..n |-> KObs(t.py[k]) = <<"v", Totals(c)>>],
+         [k \in 1..n |-> KObs(t.rs[k]) = <<"v", Totals(c)>>],
          [k \in 1..n |-> KObs(t.py[k]) = <<"v", Totals(c)>>],
          [k \in 1..n |-> KObs(t.rs[k]) = <<"v", Totals(c)>>]>>
 
